@@ -73,7 +73,7 @@ PROPS["C10"] = {
     "kani": "c10",
     "mir": "c10",
     "level": "model_checking",
-    "explanation": "Bounded model checking (Kani/CBMC) of the comparison every sorter and k-way merger delegates to (ScalarValue::compare) on each numeric / time / bool sort-key type: equals the typed order, antisymmetric and transitive over three arbitrary values; plus the heap ordering (asc / desc, shard tie-break) of the ordered merger through a cfg(kani) hook. Engine B B-3: ghost counters over MergerState::run show the n-th emitted row is the (offset+n)-th popped row and nothing is emitted beyond the limit (<= 3 loop iterations). B-4: MemTableSource's local limit (None for ordered queries, else LIMIT + OFFSET before LIMIT) is the only thing its sorted rows are truncated by. B-5: the shard-level OrderedStreamMerger is started with offset 0 and the shard budget effective_limit, which StreamingContext::new computes as LIMIT + OFFSET.",
+    "explanation": "Bounded model checking (Kani/CBMC) of the comparison every sorter and k-way merger delegates to (ScalarValue::compare) on each numeric / time / bool sort-key type: equals the typed order, antisymmetric and transitive over three arbitrary values; plus the heap ordering (asc / desc, shard tie-break) of the ordered merger through a cfg(kani) hook. Engine B B-3: ghost counters over MergerState::run show the n-th emitted row is the (offset+n)-th popped row and nothing is emitted beyond the limit (<= 3 loop iterations). B-4: MemTableSource's local limit (None for ordered queries, else LIMIT + OFFSET before LIMIT) is the only thing its sorted rows are truncated by. B-5: the shard-level OrderedStreamMerger is started with offset 0 and the shard budget effective_limit, which StreamingContext::new computes as LIMIT + OFFSET. B-6: the comparator the segment runner sorts its rows with returns on every path the unsigned fast path or exactly ScalarValue::compare(a, b), the order of the merge heap.",
     "outside": [
         "the ordered mergers themselves (async, over channels) and top-k zone pre-selection (RLTE, I/O); the window kernel try_accept_row and the OFFSET-without-LIMIT gate are decided by Engine B",
         "string sort keys in general (str::parse of symbolic text does not finish); only the concrete witness of F-C10-a",
